@@ -28,7 +28,21 @@ HERE = os.path.dirname(os.path.abspath(__file__))
 # ------------------------------------------------------------------------------------------------
 # atoms: immutable Python values <-> integers (pure functions, identical in every interpreter)
 # ------------------------------------------------------------------------------------------------
-WEIGHTS = [w for n in (1, 2, 3) for w in itertools.product((1.0, -1.0), repeat=n)] + [(2.0,), (-0.5, 2.0)]
+WEIGHTS = [w for n in (1, 2, 3) for w in itertools.product((1.0, -1.0), repeat=n)] + [(2.0,), (-0.5, 2.0)] + \
+    [(1,), (-1,), (-1, 1), (2, -3), (1, -1, 2), (0.1,), (3.0, -0.1), (1e-3, 3.0, -1.0), (1, -1.0), (-3,), (0.1, -3, 1.0)]
+WEIGHT_REPRS = [repr(w) for w in WEIGHTS]
+HASH_BASE = 10 ** 12
+_HASHED = {}          # id -> value, for values interned by hash in this process
+
+
+def hashed_atom(x):
+    """Opaque atom for any other immutable number / tuple of numbers: type and repr decide (exact, same in every process)."""
+    import hashlib
+    key = "%s.%s:%r" % (type(x).__module__, type(x).__name__, x)
+    z = HASH_BASE + int(hashlib.sha1(key.encode()).hexdigest()[:14], 16)
+    _HASHED[z] = x
+    return z
+
 TYPECODES = ["b", "i", "d", "f", "l", "H"]
 NONE_ATOM = 5000
 FLOAT_BASE = 100000
@@ -93,21 +107,23 @@ def is_node(x):
 
 
 def atom_id(x):
+    """Exact: equal ids <=> same type and same value (1, 1.0, numpy.float64(1.0), -0.0 / 0.0 are all different atoms)."""
     if isinstance(x, numpy.generic):
-        x = x.item()
+        return hashed_atom(x)
     if x is None:
         return NONE_ATOM
     if isinstance(x, bool):
         raise ValueError("bool atom")
-    if isinstance(x, int):
+    if type(x) is int:
         if not -1000 <= x <= 1000:
-            raise ValueError("int atom %r" % x)
+            return hashed_atom(x)
         return x
-    if isinstance(x, float):
-        k = x * 16
-        if k != int(k) or abs(x) > 1000:
-            raise ValueError("float atom %r" % x)
-        return FLOAT_BASE + int(k)
+    if type(x) is float:
+        if x != x:
+            raise ValueError("nan atom")
+        if x in (float("inf"), float("-inf")) or abs(x) > 1000 or x * 16 != int(x * 16) or (x == 0 and str(x)[0] == "-"):
+            return hashed_atom(x)
+        return FLOAT_BASE + int(x * 16)
     if isinstance(x, str):
         if x in TYPECODES:
             return 7100 + TYPECODES.index(x)
@@ -117,8 +133,10 @@ def atom_id(x):
     if isinstance(x, tuple):
         if len(x) == 2 and x[1] == "t":
             return 4000 + x[0]
-        if x in WEIGHTS:
-            return 7000 + WEIGHTS.index(x)
+        if repr(x) in WEIGHT_REPRS:
+            return 7000 + WEIGHT_REPRS.index(repr(x))
+        if all(isinstance(e, (int, float, numpy.generic)) and not isinstance(e, bool) for e in x):
+            return hashed_atom(x)
         raise ValueError("tuple atom %r" % (x,))
     if is_node(x):
         return node_atom(x)
@@ -126,6 +144,8 @@ def atom_id(x):
 
 
 def py_atom(z):
+    if z in _HASHED:
+        return _HASHED[z]
     if z == NONE_ATOM:
         return None
     if -1000 <= z <= 1000:
@@ -431,7 +451,8 @@ def snapshot(x, stack=()):
     stack = stack + (id(x),)
     items = [snapshot(v, stack) for v in obj_items(x, k)]
     if k in (K_FIT, K_CFIT):
-        attrs = [("valid", x.valid), ("values", repr(x.values))]
+        attrs = [("valid", x.valid), ("values", repr(x.values)),
+                 ("wvalues", repr([(type(w).__name__, repr(w)) for w in x.wvalues])), ("weights", repr(x.weights))]
         if k == K_CFIT:
             attrs.append(("cv", snapshot(x.constraint_violation, stack)))
     else:
@@ -531,11 +552,42 @@ def apply_mutation(x, k, m):
     elif k in (K_FIT, K_CFIT):
         assert m[0] == "setitems"
         if vals:
-            x.values = tuple(v / w for v, w in zip(vals, x.weights))
+            x.values = tuple(m[2])          # the objective values chosen by fit_values; m[1] = atoms of values * weights
+            if [atom_id(w) for w in x.wvalues] != list(m[1]):
+                raise ValueError("weighted values are not value * weight: %r" % (x.wvalues,))
         else:
             del x.values
     else:
         raise ValueError(k)
+
+
+HUGE_INTS = [2 ** 53 + 1, -(2 ** 53 + 1), 2 ** 53, 2 ** 64 + 3, 10 ** 30, -(10 ** 30) - 7]
+
+
+def fit_values(rng, weights):
+    """Objective values for one fitness: dyadic floats, Python ints small and huge, doubles whose v*w/w*w does not
+    round-trip, subnormal / near-overflow doubles, numpy scalars; types mixed inside one tuple."""
+    out = []
+    for w in weights:
+        r = rng.random()
+        if r < 0.3:
+            v = rng.randint(-20, 20) / 4.0
+        elif r < 0.45:
+            v = rng.randint(-9, 9)
+        elif r < 0.6:
+            v = rng.choice(HUGE_INTS)
+        elif r < 0.75:
+            v = (rng.random() - 0.5) * 10.0 ** rng.randint(-5, 5)
+        elif r < 0.82:
+            v = rng.choice([5e-324, -5e-324, 1e308, -1e308, 2.2250738585072014e-308, 0.1, 1.0 / 3.0, 1e16 + 2.0])
+        elif r < 0.9:
+            v = rng.choice([numpy.float64(rng.random()), numpy.float64(0.1), numpy.float32(0.1), numpy.float64(2.0 ** 53 + 2.0)])
+        else:
+            v = rng.choice([numpy.int64(rng.randint(-9, 9)), numpy.int64(2 ** 53 + 1), numpy.int32(7)])
+        if isinstance(v, numpy.integer) and isinstance(w, int) and abs(int(v) * w) >= 2 ** 62:
+            v = int(v)                      # no silent int64 overflow
+        out.append(v)
+    return tuple(out)
 
 
 def choose_mutation(rng, x, k, fresh):
@@ -561,12 +613,12 @@ def choose_mutation(rng, x, k, fresh):
         opts += [("append", [max(big + 1, next(fresh))]), ("setitems", sorted(set(rng.randint(-9, 9) for _ in range(rng.randint(0, 3)))))]
     elif k in (K_DICT, K_PYDICT):
         opts += [("append", [next(fresh), rng.randint(-9, 9)]), ("setitems", [])]
-    elif k == K_FIT:
-        n = len(x.weights)
-        opts += [("setitems", [fl(rng.randint(-20, 20)) for _ in range(n)]), ("setitems", [])]
-    elif k == K_CFIT:
-        n = len(x.weights)
-        opts += [("setitems", [fl(rng.randint(-20, 20)) for _ in range(n)])]
+    elif k in (K_FIT, K_CFIT):
+        for _ in range(2):
+            vals = fit_values(rng, x.weights)
+            opts.append(("setitems", [atom_id(w) for w in map(operator.mul, vals, x.weights)], vals))
+        if k == K_FIT:
+            opts.append(("setitems", []))
     if k not in (K_PYLIST, K_PYDICT, K_PYSET, K_BUF, K_CLASS):
         w = 1 if k in (K_FIT, K_CFIT) else 3
         for _ in range(w):
@@ -776,12 +828,19 @@ def main(run):
         # fitness values and validity
         xvars = vars(x) if hasattr(x, "__dict__") else {}
         cvars = vars(c) if hasattr(c, "__dict__") else {}
-        for n, v in xvars.items():
-            if isinstance(v, base.Fitness):
-                w = getattr(c, n, None)
-                if not isinstance(w, base.Fitness) or w.valid != v.valid or w.values != v.values or \
-                        w.wvalues != v.wvalues or not (w == v) or w.weights != v.weights:
-                    run.oracle_violation("%s: fitness values / validity differ" % how, case)
+        pairs_f = [(v, getattr(c, n, None)) for n, v in xvars.items() if isinstance(v, base.Fitness)]
+        if kx in (K_FIT, K_CFIT):
+            pairs_f.append((x, c))
+        for v, w in pairs_f:
+            if not isinstance(w, base.Fitness) or w.valid != v.valid or w.values != v.values or \
+                    w.wvalues != v.wvalues or not (w == v) or w.weights != v.weights:
+                run.oracle_violation("%s: fitness values / validity differ" % how, case,
+                                     observed=[repr(v.wvalues), repr(getattr(w, "wvalues", None))])
+                continue
+            bad = fit_differences(v, w)
+            if bad:
+                run.oracle_violation("%s: fitness of the copy is not exactly the original's: %s" % (how, "; ".join(bad)), case,
+                                     observed=[repr(v.weights), repr(v.wvalues), repr(w.wvalues)])
         # extra attributes
         if kx in (K_FIT, K_CFIT):
             pass        # attributes stored on a fitness object itself are outside the statement
@@ -799,6 +858,38 @@ def main(run):
             common = [KNAMES[kind_of(fx[i])] for i in fx if i in fc]
             if common:
                 run.oracle_violation("%s: unpickled object shares objects (class level included) with the original: %s" % (how, common), case)
+
+    def fit_differences(v, w):
+        """exact equality of two fitnesses: weighted values with their types, every comparison operator between them,
+        and the same verdicts against third fitnesses just below / at / just above"""
+        bad = []
+        ev = [(type(a).__name__, repr(a)) for a in v.wvalues]
+        ew = [(type(a).__name__, repr(a)) for a in w.wvalues]
+        if ev != ew:
+            bad.append("weighted values %r became %r" % (ev, ew))
+        if [(type(a).__name__, repr(a)) for a in v.weights] != [(type(a).__name__, repr(a)) for a in w.weights]:
+            bad.append("weights differ")
+        if not (v == w) or (v != w) or (v < w) or (v > w) or not (v <= w) or not (v >= w) or v.dominates(w) or w.dominates(v):
+            bad.append("original and copy do not compare equal under ==, !=, <, >, <=, >=, dominates")
+        if v.valid:
+            if type(v).__hash__ is not None and hash(v) != hash(w):
+                bad.append("hash differs")
+            thirds = []
+            for step in (-1, 0, 1):
+                a = v.wvalues[0]
+                if isinstance(a, (int, numpy.integer)):
+                    b = int(a) + step
+                else:
+                    b = float(numpy.nextafter(float(a), float("inf") * step)) if step else float(a)
+                t = type(v)()
+                t.wvalues = (b,) + tuple(v.wvalues[1:])
+                thirds.append(t)
+            for t in thirds:
+                rv = (v < t, v <= t, v == t, v != t, v > t, v >= t, t < v, v.dominates(t), t.dominates(v))
+                rw = (w < t, w <= t, w == t, w != t, w > t, w >= t, t < w, w.dominates(t), t.dominates(w))
+                if rv != rw:
+                    bad.append("ordering against %r: original %r, copy %r" % (t.wvalues, rv, rw))
+        return bad
 
     def oracle_frame(case, x, c, how):
         try:
@@ -836,6 +927,8 @@ def main(run):
             nm = new_name()
             fb = base.ConstrainedFitness if rng.random() < 0.25 else base.Fitness
             kw = {"weights": rng.choice([w for w in WEIGHTS if "nobj" not in force or len(w) == force["nobj"]])}
+            if "weights" in force:
+                kw = {"weights": tuple(force["weights"])}
             if rng.random() < 0.15:
                 kw["x20"] = build(mk_nested(1))
             creator.create(nm, fb, **kw)
@@ -884,7 +977,7 @@ def main(run):
         for ind in roots:
             f = getattr(ind, "fitness", None)
             if isinstance(f, base.Fitness) and force.get("valid", rng.random() < 0.7):
-                f.values = tuple(rng.randint(-20, 20) / 4.0 for _ in f.weights)
+                f.values = tuple(force["values"]) if "values" in force else fit_values(rng, f.weights)
                 setup.append("valid")
             if isinstance(f, base.ConstrainedFitness) and rng.random() < 0.5:
                 f.constraint_violation = rng.choice([[1, 0], [0], [0, 0, 1]])
@@ -1013,7 +1106,7 @@ def main(run):
                 # deleting an attribute that the class re-creates per instance is outside the model
                 apply_mutation(o, kind_of(o), m)
                 op = ("mut", k, m)
-            ops_log.append([op[0]] + [list(x) if isinstance(x, tuple) else x for x in op[1:]])
+            ops_log.append(repr(op))
             steps.append((op, describe(roots)))
         case["ops"] = ops_log
         prev = h0
@@ -1063,7 +1156,17 @@ def main(run):
             for b in range(11 if run.thorough else 8) for p in range(6) for n in (1, 2, 3) for v in (True, False)
             for c in ((False, True) if run.thorough else ((b + p + n + v) % 2 == 0,))]
     nscen = run.scale(100, 4000)
-    jobs = [(i, None) for i in range(nscen)] + [(i, g) for i, g in enumerate(grid)]
+    # corpus (past misses) first: every entry on every base type, with each pickle protocol in turn
+    corpus = []
+    cdir = os.path.join(os.path.dirname(HERE), "corpus")
+    for fn in sorted(os.listdir(cdir)) if os.path.isdir(cdir) else []:
+        if fn.startswith("C16") and fn.endswith(".json"):
+            for j, e in enumerate(json.load(open(os.path.join(cdir, fn)))["cases"]):
+                for b in range(8):
+                    corpus.append(dict(base=b, weights=e["weights"], values=e["values"], nobj=len(e["weights"]), valid=True,
+                                       proto=(b + j) % 6, cycle=False, corpus=fn))
+    run.extra_cov["corpus_cases"] = len(corpus)
+    jobs = [(i, g) for i, g in enumerate(corpus)] + [(i, None) for i in range(nscen)] + [(i, g) for i, g in enumerate(grid)]
     for idx, g in jobs:
         try:
             scenario(idx, g)
